@@ -33,6 +33,16 @@ class FeatureProduction(Production):
         """The merged features of the production rules"""
         return self._features
 
+    def __eq__(self, other):
+        # Two productions with the same head and body can carry different
+        # feature structures: they are different productions
+        return super().__eq__(other) and \
+            isinstance(other, FeatureProduction) and \
+            repr(self) == repr(other)
+
+    def __hash__(self):
+        return super().__hash__()
+
     def __repr__(self):
         res = [self.head.to_text()]
         cond_head = str(self._features.get_feature_by_path(["head"]))
